@@ -11,8 +11,10 @@
     events, regrouped per source line): chunks lie at the load address the bookkeeping implies; statements other
     than the named pseudo-ops move only the active counter by their chunks; the named pseudo-ops behave like the
     AddrBook operators.
-No verdict on: ORG while a PHASE offset is in force (manual: load address; code: execution address -- named
-deviation OrgWhilePhased); addresses >= 2^30 (TLC integers).
+ORG while a PHASE offset is in force: the implemented reading (argument = execution address) is the reference
+(the manual's CAUTION paragraph says load address; see AddrBook.tla OrgWhilePhased and DESIGN.md).
+No verdict on: nested structures; addresses >= 2^30 (TLC integers).
+Independent seeded change caught after strengthening: seeded/C10 (ORG no-op test through the load address).
 """
 import os
 
